@@ -393,7 +393,7 @@ pub fn run_system(scripts: &[Script], schedule: &[usize], horizon: usize) -> Run
         while !(g.socks.iter().all(|s| s.bound && s.waiting && s.answer.is_none())) {
             let (g2, to) = e.cv.wait_timeout(g, Duration::from_millis(200)).unwrap();
             g = g2;
-            if to.timed_out() && t0.elapsed() > Duration::from_secs(8) {
+            if to.timed_out() && t0.elapsed() > Duration::from_secs(40) {
                 died = Some(format!("after {k} answers an actor thread is neither waiting in recv_from nor progressing (it died or hangs): {} sockets bound, waiting flags {:?}", g.socks.len(), g.socks.iter().map(|s| s.waiting).collect::<Vec<_>>()));
                 break;
             }
@@ -421,7 +421,7 @@ pub fn run_system(scripts: &[Script], schedule: &[usize], horizon: usize) -> Run
         while died.is_none() && !(g.socks.iter().all(|s| s.waiting && s.answer.is_none())) {
             let (g2, _) = e.cv.wait_timeout(g, Duration::from_millis(200)).unwrap();
             g = g2;
-            if t0.elapsed() > Duration::from_secs(8) {
+            if t0.elapsed() > Duration::from_secs(40) {
                 died = Some("after the last answer an actor thread never came back to recv_from".into());
                 break;
             }
